@@ -41,6 +41,7 @@ class Spec:
         self.pos = 0
         self.unspecified = set()   # names of records whose attachments are not specified
         self.adapters = {}
+        self.lorphans = {}    # var -> attachments recorded in a collector scope with no local span open
 
     def th(self, t):
         return self.threads.setdefault(t, {"guards": [], "scopes": [], "alive": True, "touched": False})
@@ -227,6 +228,7 @@ class Spec:
             if g[1] is not None:
                 th["scopes"].pop()
                 ents = g[1]["entries"]
+                self.lorphans[a[0]] = list(g[1].get("orphans", []))
             self.lspans[a[0]] = ents
         elif op in ("closeUnder", "collectUnder"):
             # the scope / collector guard beneath still-open local spans is released first: those spans are
@@ -252,6 +254,7 @@ class Spec:
             else:
                 th["scopes"].pop()
                 self.lspans[a[0]] = g[1]["entries"]
+                self.lorphans[a[0]] = list(g[1].get("orphans", []))
         elif op == "lWithProps":
             kvs = rprops(a[0].split(":", 1)[1])
             g = th["guards"][-1]
@@ -278,7 +281,18 @@ class Spec:
         elif op == "pushChild":
             sp = self.spans[a[0]]
             ents = self.lspans[a[1]]
-            if sp is None or not ents:
+            orphans = self.lorphans.get(a[1], [])
+            if sp is None or not (ents or orphans):
+                return
+            # events / properties recorded in the collector's scope with no local span open attach to the span
+            # the set is pushed to (once per sampled parent trace of that span)
+            for it in sp["items"]:
+                if it["sampled"]:
+                    for o in orphans:
+                        sp["attached"].append((it["root"], o))
+            if not ents:
+                if any(it["sampled"] for it in sp["items"]):
+                    self.touch(t)
                 return
             for it in self.issue(sp):
                 if it["sampled"]:
@@ -579,7 +593,7 @@ class Gen:
     # adapters (C13 / C14)
     CALLS = {"inSpan": ["poll"], "enterOnPoll": ["poll"], "stream": ["poll_next"],
              "sink": ["poll_ready", "start_send", "poll_flush", "poll_close"]}
-    RESULTS = {"poll": ["pending", "ready"], "poll_next": ["pending", "item", "none"], "poll_ready": ["pending", "ready", "err"],
+    RESULTS = {"poll": ["pending", "ready"], "poll_next": ["pending", "item", "item_last", "none"], "poll_ready": ["pending", "ready", "err"],
                "start_send": ["ready", "err"], "poll_flush": ["pending", "ready", "err"], "poll_close": ["pending", "ready", "err"]}
 
     def op_ad_new(self, t, kind, arg):
@@ -925,7 +939,7 @@ class Gen:
         if sc is None:
             return True
         if sc["kind"] == "coll" and not sc["open"]:
-            return False
+            return bool(self.k.get("orphans"))
         return True
 
     # ------------------------------------------------------------------ wild stream
